@@ -120,6 +120,50 @@ fn file_bytes(spec: &str) -> Arc<Vec<u8>> {
 
 // -------------------------------------------------------------------------------- reading
 
+/// `ab`: default options; `abi`: page index (column + offset index) requested
+fn read_ab_opt<R: ChunkReader + 'static>(src: R, page_index: bool) -> PResult<Vec<RecordBatch>> {
+    use parquet::arrow::arrow_reader::ArrowReaderOptions;
+    use parquet::file::metadata::PageIndexPolicy;
+    let o = if page_index { ArrowReaderOptions::new().with_page_index_policy(PageIndexPolicy::Optional) } else { ArrowReaderOptions::new() };
+    let b = ParquetRecordBatchReaderBuilder::try_new_with_options(src, o)?.with_batch_size(4);
+    let r = b.build()?;
+    let mut out = vec![];
+    for x in r {
+        out.push(x.map_err(|e| ParquetError::General(e.to_string()))?);
+        if out.len() > 100000 {
+            return Err(ParquetError::General("too many batches".into()));
+        }
+    }
+    Ok(out)
+}
+
+/// `sfrp`: low-level page readers of every column chunk of every row group; returns the number of pages
+fn read_pages<R: ChunkReader + 'static>(src: R) -> PResult<usize> {
+    let r = SerializedFileReader::new(src)?;
+    let mut n = 0;
+    for g in 0..r.num_row_groups() {
+        let rg = r.get_row_group(g)?;
+        for c in 0..rg.num_columns() {
+            let mut pr = rg.get_column_page_reader(c)?;
+            while let Some(_page) = pr.get_next_page()? {
+                n += 1;
+                if n > 1_000_000 {
+                    return Err(ParquetError::General("too many pages".into()));
+                }
+            }
+        }
+    }
+    Ok(n)
+}
+
+/// `mdi`: metadata with the page index required... optional, through the sized entry point
+fn read_md_index<R: ChunkReader>(src: &R) -> PResult<()> {
+    use parquet::file::metadata::PageIndexPolicy;
+    let mut r = ParquetMetaDataReader::new().with_page_index_policy(PageIndexPolicy::Optional);
+    r.try_parse_sized(src, src.len())?;
+    r.finish().map(|_| ())
+}
+
 fn read_ab<R: ChunkReader + 'static>(src: R) -> PResult<Vec<RecordBatch>> {
     let b = ParquetRecordBatchReaderBuilder::try_new(src)?.with_batch_size(4);
     let r = b.build()?;
@@ -162,6 +206,19 @@ fn run_pqf(t: &[&str], fails: &mut Fails) -> String {
     let inp = input(spec);
     let ok = match reader {
         "md" => ParquetMetaDataReader::new().parse_and_finish(&data).is_ok(),
+        "mdi" => read_md_index(&data).is_ok(),
+        "sfrp" => read_pages(data).is_ok(),
+        "abi" => {
+            let r = read_ab_opt(data, true);
+            if k == len {
+                match &r {
+                    Ok(b) if same_rows(&inp.schema, b, &inp.batches) => {}
+                    Ok(_) => fails.push(("roundtrip".into(), "complete file does not read back as written".into())),
+                    Err(e) => fails.push(("roundtrip".into(), format!("complete file rejected: {e}"))),
+                }
+            }
+            r.is_ok()
+        }
         "sfr" => {
             let r = read_sfr(data);
             if k == len && r.as_ref().ok() != Some(&total_rows(&inp.batches)) {
@@ -228,9 +285,97 @@ fn drive_sfw(inp: &Input, spec: &str, sink: FaultSink, out: &mut Outcome) -> PRe
     res
 }
 
+/// `AsyncFileWriter` over the fault sink: `write(bytes)` = `write_all`, `complete` = `flush`
+struct AsyncSinkW(FaultSink);
+impl parquet::arrow::async_writer::AsyncFileWriter for AsyncSinkW {
+    fn write(&mut self, bs: Bytes) -> futures::future::BoxFuture<'_, PResult<()>> {
+        use futures::FutureExt;
+        use std::io::Write;
+        let r = self.0.write_all(&bs).map_err(|e| ParquetError::External(Box::new(e)));
+        futures::future::ready(r).boxed()
+    }
+    fn complete(&mut self) -> futures::future::BoxFuture<'_, PResult<()>> {
+        use futures::FutureExt;
+        use std::io::Write;
+        let r = self.0.flush().map_err(|e| ParquetError::External(Box::new(e)));
+        futures::future::ready(r).boxed()
+    }
+}
+
+fn block_on<F: std::future::Future>(f: F) -> F::Output {
+    let mut f = Box::pin(f);
+    let w = futures::task::noop_waker();
+    let mut cx = std::task::Context::from_waker(&w);
+    loop {
+        if let std::task::Poll::Ready(v) = f.as_mut().poll(&mut cx) {
+            return v;
+        }
+    }
+}
+
+/// `AsyncArrowWriter` (write / flush per batch for odd seeds / finish), then the retry family
+fn drive_aaw(inp: &Input, spec: &str, sink: FaultSink, out: &mut Outcome) -> PResult<()> {
+    let mut w = parquet::arrow::AsyncArrowWriter::try_new(AsyncSinkW(sink.clone()), inp.schema.clone(), Some(props(spec_props(spec))))?;
+    let flush_each = spec.split(':').nth(3).unwrap().parse::<usize>().unwrap() % 2 == 1;
+    let mut res = Ok(());
+    for b in &inp.batches {
+        res = block_on(w.write(b));
+        if res.is_ok() && flush_each {
+            res = block_on(w.flush());
+        }
+        if res.is_err() {
+            break;
+        }
+    }
+    if res.is_ok() {
+        res = block_on(w.finish()).map(|_| ());
+    }
+    retry_after_error!(res, sink, out, "finish#1" => block_on(w.finish()), "finish#2" => block_on(w.finish()), "close" => block_on(w.close()));
+    sink.mark_done();
+    res
+}
+
+/// column-level API: `ArrowWriter::into_serialized_writer`, `ArrowRowGroupWriterFactory`,
+/// `compute_leaves`, `ArrowColumnWriter::{write, close}`, `ArrowColumnChunk::append_to_row_group`
+fn drive_acw(inp: &Input, spec: &str, sink: FaultSink, out: &mut Outcome) -> PResult<()> {
+    use parquet::arrow::arrow_writer::compute_leaves;
+    let w = ArrowWriter::try_new(sink.clone(), inp.schema.clone(), Some(props(spec_props(spec))))?;
+    let (mut fw, factory) = w.into_serialized_writer()?;
+    let mut go = || -> PResult<()> {
+        for (i, b) in inp.batches.iter().enumerate() {
+            let mut writers = factory.create_column_writers(i)?;
+            let mut wi = writers.iter_mut();
+            for (field, col) in inp.schema.fields().iter().zip(b.columns()) {
+                for leaf in compute_leaves(field, col)? {
+                    wi.next().expect("leaf writer").write(&leaf)?;
+                }
+            }
+            let mut rg = fw.next_row_group()?;
+            for cw in writers {
+                cw.close()?.append_to_row_group(&mut rg)?;
+            }
+            rg.close()?;
+        }
+        Ok(())
+    };
+    let mut res = go();
+    if res.is_ok() {
+        res = fw.finish().map(|_| ());
+    }
+    retry_after_error!(res, sink, out, "finish#1" => fw.finish(), "finish#2" => fw.finish(), "into_inner" => fw.into_inner());
+    sink.mark_done();
+    res
+}
+
 fn drive_writer(writer: &str, inp: &Input, spec: &str, sink: FaultSink, out: &mut Outcome) -> PResult<()> {
     if writer == "sfw" {
         return drive_sfw(inp, spec, sink, out);
+    }
+    if writer == "aaw" {
+        return drive_aaw(inp, spec, sink, out);
+    }
+    if writer == "acw" {
+        return drive_acw(inp, spec, sink, out);
     }
     let mut w = ArrowWriter::try_new(sink.clone(), inp.schema.clone(), Some(props(spec_props(spec))))?;
     let mut res = Ok(());
@@ -301,7 +446,7 @@ fn run_wfault(t: &[&str], fails: &mut Fails) -> String {
     // sink ended up holding exactly the complete fault-free file
     if !out.later_ok.is_empty() && data != *good {
         fails.push((
-            "ok-after-error".into(),
+            if writer == "aaw" { "kf:parquet-async-ok-after-failed-write".to_string() } else { "ok-after-error".to_string() },
             format!(
                 "{} returned Ok after an earlier call had failed, but the sink holds {} bytes that are not the fault-free file ({} bytes)",
                 out.later_ok.join("+"),
@@ -369,6 +514,24 @@ fn read_with(reader: &str, data: Arc<Vec<u8>>, ctl: ReadCtl) -> (Vec<RecordBatch
     let src = FaultChunk { data: Bytes::from(data.as_ref().clone()), ctl };
     match reader {
         "md" => (vec![], ParquetMetaDataReader::new().parse_and_finish(&src).is_ok()),
+        "mdi" => (vec![], read_md_index(&src).is_ok()),
+        "sfrp" => (vec![], read_pages(src).is_ok()),
+        "sfr" => {
+            let r = (|| -> PResult<usize> {
+                let r = SerializedFileReader::new(src)?;
+                let mut n = 0;
+                for row in r.get_row_iter(None)? {
+                    row?;
+                    n += 1;
+                }
+                Ok(n)
+            })();
+            (vec![], r.is_ok())
+        }
+        "abi" => match read_ab_opt(src, true) {
+            Ok(b) => (b, true),
+            Err(_) => (vec![], false),
+        },
         _ => {
             // collect what was yielded before an error, too
             let b = match ParquetRecordBatchReaderBuilder::try_new(src) {
@@ -581,7 +744,8 @@ fn gen_pqf(sink: &mut Sink, rng: &mut Rng) {
     let p = if sid == 4 { *rng.pick(&[1usize, 1, 0]) } else { rng.usize(N_PROPS) };
     let spec = format!("{}:{p}", gen_spec(rng, &[sid]));
     let bytes = file_bytes(&spec);
-    let reader = *rng.pick(&["md", "ab", "ab", "sfr"]);
+    static NEXT: std::sync::atomic::AtomicUsize = std::sync::atomic::AtomicUsize::new(0);
+    let reader = ["md", "ab", "sfr", "mdi", "abi", "sfrp"][NEXT.fetch_add(1, std::sync::atomic::Ordering::Relaxed) % 6];
     for k in 0..=bytes.len() {
         let line = format!("C18 pqf {reader} {spec} {} {k} {}", bytes.len(), hex(&bytes[k - k.min(8)..k]));
         let tags = format!("op:pqf reader:{reader} schema:{} props:{p} {}", schema_name(sid), nt(k, bytes.len()));
@@ -589,12 +753,14 @@ fn gen_pqf(sink: &mut Sink, rng: &mut Rng) {
     }
 }
 
+const PQ_WRITERS: [&str; 5] = ["aw", "sfw", "awf", "aaw", "acw"];
+
 fn gen_wfault(sink: &mut Sink, rng: &mut Rng, i: usize) {
-    let writer = ["aw", "sfw", "awf"][i % 3];
+    let writer = PQ_WRITERS[i % PQ_WRITERS.len()];
     // input classes (every writer meets every class): small (all schemas, whole property grid); row groups > 8 KiB
     // (the writer's internal buffer) with bloom filters in both positions; one file > 64 KiB
     let bloomy = [4usize, 5, 6, 7, 2];
-    let (spec, large) = match (i / 3) % 6 {
+    let (spec, large) = match (i / PQ_WRITERS.len()) % 6 {
         0 => (format!("{}:{}", gen_spec(rng, &[0, 1, 2, 3, 4, 5, 6]), rng.usize(N_PROPS)), false),
         1 => (format!("{}:{}", gen_spec(rng, &[0, 1, 2, 3, 4, 5, 6]), bloomy[rng.usize(5)]), false),
         // row groups > 8 KiB with bloom filters: 1..3 row groups, both positions, dictionary on/off
@@ -602,7 +768,7 @@ fn gen_wfault(sink: &mut Sink, rng: &mut Rng, i: usize) {
         3 => (format!("1:3:{}:{}:{}", 1100 + rng.usize(500), rng.usize(100000), [4usize, 7, 6][i % 3]), true),
         4 => (format!("1:2:{}:{}:{}", 1400 + rng.usize(800), rng.usize(100000), [5usize, 4, 7][i % 3]), true),
         // > 64 KiB
-        _ => (format!("1:2:{}:{}:{}", 4200 + rng.usize(600), rng.usize(100000), [4usize, 5, 8, 0][(i / 18 + i) % 4]), true),
+        _ => (format!("1:2:{}:{}:{}", 4200 + rng.usize(600), rng.usize(100000), [4usize, 5, 8, 0][(i / 30 + i) % 4]), true),
     };
     let (_, trace) = fault_free(writer, &spec);
     let scheds = if large { schedules_for_large(&trace) } else { schedules_for(&trace) };
@@ -619,8 +785,9 @@ fn gen_wfault(sink: &mut Sink, rng: &mut Rng, i: usize) {
 }
 
 fn gen_rfault(sink: &mut Sink, rng: &mut Rng) {
-    let reader = *rng.pick(&["ab", "ab", "md"]);
-    let spec = format!("{}:{}", gen_spec(rng, &[0, 1, 2, 3, 4, 5, 6]), rng.usize(4));
+    static NEXT: std::sync::atomic::AtomicUsize = std::sync::atomic::AtomicUsize::new(0);
+    let reader = ["ab", "md", "abi", "sfr", "mdi", "sfrp"][NEXT.fetch_add(1, std::sync::atomic::Ordering::Relaxed) % 6];
+    let spec = format!("{}:{}", gen_spec(rng, &[0, 1, 2, 3, 4, 5, 6]), rng.usize(N_PROPS));
     let data = file_bytes(&spec);
     let ctl = ReadCtl::new('N', 0);
     let (good, ok) = read_with(reader, data, ctl.clone());
@@ -679,7 +846,7 @@ fn main() {
         for _ in 0..n {
             gen_pqf(&mut sink, &mut rng);
         }
-        for i in 0..n * 3 {
+        for i in 0..n * PQ_WRITERS.len() {
             gen_wfault(&mut sink, &mut rng, i);
         }
         for _ in 0..n {
